@@ -169,7 +169,16 @@ def rand_const(r, envs, rsys, p_zero=0.0):
     if r.random() < 0.5 or not keys:
         keys.append("default")
     r.shuffle(keys)
-    return {"kind": "dict", "entries": {k: rand_entry(r, rsys) for k in keys}}
+    entries = {k: rand_entry(r, rsys) for k in keys}
+    joined = []
+    named = [k for k in keys if k != "default"]
+    if len(named) >= 2 and r.random() < 0.35:
+        # documented shorthand: one key naming two, three or more environments that share a constant
+        grp = r.sample(named, r.randint(2, len(named)))
+        for k in grp[1:]:
+            entries[k] = entries[grp[0]]
+        joined.append(grp)
+    return {"kind": "dict", "entries": entries, "joined": joined, "sep": r.choice([",", ", ", " , "])}
 
 
 def entries_of(desc):
@@ -193,7 +202,15 @@ def render_entry(st, e, dim):
 def render_const(st, desc, dim):
     if desc["kind"] == "scalar":
         return render_entry(st, desc["entry"], dim)
-    return {k: render_entry(st, e, dim) for k, e in desc["entries"].items()}
+    out = {k: render_entry(st, e, dim) for k, e in desc["entries"].items()}
+    for grp in desc.get("joined", []):
+        if any(k not in out for k in grp) or any(desc["entries"][k] != desc["entries"][grp[0]] for k in grp):
+            continue          # (a variant of the description changed one member of the group: written key by key)
+        first = out[grp[0]]
+        for k in grp:
+            del out[k]
+        out[desc.get("sep", ",").join(grp)] = first
+    return out
 
 
 def entry_si(e, dim):
